@@ -216,6 +216,18 @@ class _Sys:
             self.readers = ("head",)
         return None
 
+    def _age_class(self, age):
+        """Ages are merged only where no reading of "older than the lifetime" can tell them apart: exact below the
+        lifetime, one class up to a day, and exact again for the first `lifetime` seconds of the next day (an age
+        whose seconds-of-day part is small is a different state for anything that drops the days)."""
+        if age < self.L:
+            return age
+        if age < DAY:
+            return "old"
+        if age < 2 * DAY:
+            return ("day+", min(age - DAY, self.L))
+        return "ancient"
+
     def canon(self):
         """Canonical, path-independent digest of the property-relevant state."""
         tree = rig.tree_digest(self.d, skip=(CACHE.encode(), b".cache.twin"))
@@ -230,10 +242,10 @@ class _Sys:
                 # not the format this harness knows how to look into: the raw bytes (finer than needed, never coarser)
                 with open(self.cpath, "rb") as f:
                     cache = core.h64(f.read())
-            age = min(CLOCK.now - int(os.stat(self.cpath).st_mtime), self.L)
+            age = self._age_class(CLOCK.now - int(os.stat(self.cpath).st_mtime))
         mdl = None
         if self.model is not None:
-            mdl = (min(CLOCK.now - self.model[0], self.L), core.h64(repr(sorted(self.model[1].items()))))
+            mdl = (self._age_class(CLOCK.now - self.model[0]), core.h64(repr(sorted(self.model[1].items()))))
         return core.h64(self.L, tree, cache, age, mdl, self.names_state, self.readers[:1], tuple(sorted(self.readers[1:])))
 
 
